@@ -21,6 +21,7 @@ import (
 //	cwd-rel       relative path with a trailing slash from another working directory
 //	other-environment  HOME, USER, locale, TZ, TMPDIR, GOMAXPROCS, unrelated variables changed (Go's own caches pinned)
 //	again         a second run over the directory that already holds the output of the same specification
+//	inputs-older-than-stale-output  as stale, the user's files dated two days back (no dependence on modification times)
 //	stale         a run over a directory holding the generated files of a DIFFERENT grammar and package name
 //	renamed       first run with the user's sources in package `oldpkg`, then the sources are renamed to
 //	              the final package name and lox runs again in the same directory (D12)
@@ -416,6 +417,22 @@ func init() {
 					d.collect()
 					add(ds, d)
 				}
+			})
+			jobs = append(jobs, func() {
+				// the user's files carry OLD modification times, the three generated files of ANOTHER specification are newer
+				// (restored from a backup or checked out after them): what is generated must not depend on timestamps
+				d := &detRun{scenario: "inputs-older-than-stale-output", dir: name("m")}
+				ds.c.write(d.dir)
+				old := time.Now().Add(-48 * time.Hour)
+				for _, n := range ds.c.names() {
+					os.Chtimes(filepath.Join(d.dir, n), old, old)
+				}
+				for g, txt := range ds.stale {
+					os.WriteFile(filepath.Join(d.dir, g), []byte(txt), 0o644)
+				}
+				d.res = runCLI(bin, []string{"--report", d.dir}, root, tmo)
+				d.collect()
+				add(ds, d)
 			})
 			jobs = append(jobs, func() {
 				d := &detRun{scenario: "stale-other-grammar", dir: name("g")}
